@@ -46,7 +46,14 @@ pub fn gen_rules(rng : &mut Rng, pr : &Profile) -> (Vec<XRule>, Vec<String>)
     {
         let nt = match rng.below(16) { 0..=11 => 1, 12..=14 => 2, _ => 3 };
         let mut tg = vec![];
-        for _ in 0..nt { tg.push(format!("{}{}", POOL[ni % POOL.len()], ni)); ni += 1; }
+        if nt >= 2 && rng.chance(1, 2)
+        {   /* a directory and a sibling file whose name extends the directory's: bundle order and string order differ */
+            tg.push(format!("{}{}/o", POOL[ni % POOL.len()], ni));
+            tg.push(format!("{}{}.s", POOL[ni % POOL.len()], ni));
+            ni += 1;
+            for _ in 2..nt { tg.push(format!("{}{}", POOL[ni % POOL.len()], ni)); ni += 1; }
+        }
+        else { for _ in 0..nt { tg.push(format!("{}{}", POOL[ni % POOL.len()], ni)); ni += 1; } }
         let ns = 1 + rng.below(std::cmp::min(3, avail.len()));
         let mut src : Vec<String> = vec![];
         while src.len() < ns { let c = avail[rng.below(avail.len())].clone(); if !src.contains(&c) { src.push(c); } }
